@@ -51,12 +51,14 @@
 //	replay               the same tx bytes took effect twice (at heights > 0)
 //	replay-k0-multisig   same, and a signer's key is a multisig with threshold 0
 //	signbytes-collision  two sign docs differing in chain id / account number / sequence have equal sign bytes
+//	signbytes-fields     chain id / account number / sequence cannot be read back from the sign bytes
 //	undecodable-effect   (raw) bytes that do not decode changed the store
 package main
 
 import (
 	"bytes"
 	"crypto/sha256"
+	"encoding/json"
 	"fmt"
 	"sort"
 	"strconv"
@@ -1235,6 +1237,17 @@ func hexKeys(ks []string) string {
 // account number or sequence but have the same sign bytes.
 func (w *world) noteDoc(sb []byte, chain string, an, sq uint64) string {
 	id := fmt.Sprintf("%s/%d/%d", chain, an, sq)
+	// the sign bytes must carry chain id, account number and sequence recoverably
+	// (a left inverse on these components = injectivity in them)
+	var doc struct {
+		ChainID       string `json:"chain_id"`
+		AccountNumber string `json:"account_number"`
+		Sequence      string `json:"sequence"`
+	}
+	if err := json.Unmarshal(sb, &doc); err != nil || doc.ChainID != chain ||
+		doc.AccountNumber != strconv.FormatUint(an, 10) || doc.Sequence != strconv.FormatUint(sq, 10) {
+		return fmt.Sprintf("VIOL:signbytes-fields %s not recoverable from the sign bytes", id)
+	}
 	if old, ok := w.docs[string(sb)]; ok && old != id {
 		return fmt.Sprintf("VIOL:signbytes-collision %s vs %s", old, id)
 	}
